@@ -27,7 +27,8 @@ Hostile == <<
   [cause |-> "struct-field-vs-accessor",   at |-> "hybrid", d |-> Dcl(<<F("foo"), F("get_foo"), F("foo_")>>, <<>>, <<>>)],
   [cause |-> "oneof-getter-unreserved",    at |-> "open",   d |-> Dcl(<<M("foo_"), F("get_foo")>>, Codes("Foo"), <<>>)],
   [cause |-> "oneof-camelcase-unresolved", at |-> "opaque", d |-> Dcl(<<M("foo")>>, Codes("Foo"), <<>>)],
-  [cause |-> "oneof-wrapper-suffix",       at |-> "open",   d |-> Dcl(<<M("foo"), M("foo_")>>, Codes("bar"), <<Codes("Foo")>>)] >>
+  [cause |-> "oneof-wrapper-suffix",       at |-> "open",   d |-> Dcl(<<M("foo"), M("foo_")>>, Codes("bar"), <<Codes("Foo")>>)],
+  [cause |-> "nested-type-camelcase-collides", at |-> "hybrid", d |-> Dcl(<<F("foo")>>, <<>>, <<Codes("_foo"), Codes("X_foo")>>)] >>
 Clean == <<
   [at |-> "open",   d |-> Dcl(<<F("reset"), F("string"), F("descriptor")>>, <<>>, <<>>)],
   [at |-> "hybrid", d |-> Dcl(<<F("foo"), F("get_foo"), F("build")>>, <<>>, <<>>)],
@@ -37,7 +38,7 @@ Clean == <<
 At(d, lv) == [level |-> lv] @@ d
 Causes(c) == {w.cause : w \in Why(c)}
 AllCauses == {"protoreflect-unreserved", "camelcase-suffix-collides", "hybrid-compat-getter", "struct-field-vs-accessor",
-              "oneof-getter-unreserved", "oneof-camelcase-unresolved", "oneof-wrapper-suffix"}
+              "oneof-getter-unreserved", "oneof-camelcase-unresolved", "oneof-wrapper-suffix", "nested-type-camelcase-collides"}
 
 \* the items: <<declaration, level>>
 Items == [k \in 1..(Len(Hostile) + Len(Clean)) |-> IF k <= Len(Hostile) THEN Hostile[k] ELSE Clean[k - Len(Hostile)]]
